@@ -95,6 +95,20 @@ REG['C18'] = dict(
     stubs=['external load function', 'ScriptedRule', 'RecordingRule',
            'fault-injecting proxy over builtins.open / os.makedirs around export (real scratch directory underneath)'])
 
+REG['C13'] = dict(
+    oracle='c13', profiles=[('lock', 4, None), ('dyn', 1, None)],
+    quick=5000, thorough=200000,
+    vacuity=['instants', 'held_instants', 'engage', 'release',
+             'zero_duty_instants', 'duty_sign_changes', 'overload_instants',
+             'non_self_locking_instants', 'F_RESET', 'continuations'],
+    rule='self-locking worm drives (friction on both sides of cos(alpha)*tan('
+    'beta)), loads up to 1000x stall of either sign, scripted duty histories '
+    'with zeros and sign changes, plus non-self-locking chains under the same '
+    'abuse; reference lock automaton per instant; distinct = (chain kinds, '
+    'schedule, fired faults, (engaged, released, zero duty, sign change, '
+    'overload, held count)); non-trivial = the lock held at least one instant '
+    'or a non-self-locking chain was watched for clamping')
+
 NOT_APPLICABLE = [
     {'property_id': 'C05',
      'reason': 'stateless function of (value, from-unit, to-unit): no schedule, clock, fault, I/O or history for a simulator to act on; its quantifier is decided by exhaustive enumeration of unit pairs, a different technique (DESIGN.md section 6)'},
